@@ -6,7 +6,10 @@
                creation transaction) and all precompiles of the fork; accessed_storage_keys empty
      EIP-2930  every address and every (address, key) of the access list is added
      EIP-3651  the COINBASE address is added (from Shanghai)
-     EIP-2935  (the draft this tree implements) the history storage contract is added (from Prague)
+     EIP-2935  nothing: the final EIP (and the Prague execution specification) does not add the
+               history storage contract to the accessed addresses; an early draft did, and the tree
+               still pre-warmed the draft's address until fix "history storage contract is not
+               pre-warmed" (a PRAGUE BALANCE of that address was charged 100 instead of 2600)
      EIP-7702  (from Prague) for every authorization tuple that passes the chain-id, nonce-range and
                signature checks the authority is added (step 4, before the code / nonce checks);
                if tx.to carries a delegation designation after the list has been processed, the
@@ -25,9 +28,10 @@ Definition account_access_cost (is_cold : bool) : Z :=
 Definition sload_access_cost (is_cold : bool) : Z :=
   if is_cold then COLD_SLOAD_COST else WARM_STORAGE_READ_COST.
 
-(* EIP-2935 history storage contract as deployed in the devnet this tree follows
-   (crates/primitives/src/constants.rs BLOCKHASH_STORAGE_ADDRESS). The final EIP-2935 deploys the
-   contract at 0x0000F90827F1C53a10cb7A02335B175320002935 and does not pre-warm it. *)
+(* EIP-2935 history storage contract at the address of the early devnet this tree's constant
+   follows (crates/primitives/src/constants.rs BLOCKHASH_STORAGE_ADDRESS). The final EIP-2935
+   deploys the contract at 0x0000F90827F1C53a10cb7A02335B175320002935. Neither is pre-warmed; the
+   constant is kept because the harness probes both addresses. *)
 Definition HISTORY_STORAGE_ADDRESS : Z := 0x25a219378dad9b3503c8268c9ca836a52427a4fb.
 
 (* what EIP-7702 needs to know about an account: nonce and kind of code *)
@@ -101,7 +105,6 @@ Definition tx_prewarmed (tx : txw) (a : Z) : bool :=
   || (a =? tw_dest tx)                                                     (* EIP-2929 *)
   || is_precompile (tw_spec tx) a                                          (* EIP-2929 *)
   || (enabled (tw_spec tx) SHANGHAI && (a =? tw_coinbase tx))              (* EIP-3651 *)
-  || (prague tx && (a =? HISTORY_STORAGE_ADDRESS))                         (* EIP-2935 (draft) *)
   || (prague tx && mem_z (fst (tx_after_auths tx)) a)                      (* EIP-7702 authorities *)
   || (prague tx && negb (tw_is_create tx) && opt_is (deleg_of tx (tw_dest tx)) a). (* EIP-7702 target of tx.to *)
 
